@@ -32,7 +32,11 @@ func GetSignatureAlgorithmFromString(name string) (x509.SignatureAlgorithm, erro
 
 func GetUserCertificateFromString(inputCert []byte) (*x509.Certificate, error) {
 
-	block, _ := pem.Decode(inputCert)
+	// the certificate is the first PEM block labelled CERTIFICATE; blocks with other labels are not certificates
+	block, rest := pem.Decode(inputCert)
+	for block != nil && block.Type != "CERTIFICATE" {
+		block, rest = pem.Decode(rest)
+	}
 	if block == nil {
 		return nil, sdkerrors.Wrap(sdkerrors.ErrNotSupported, "failed to find certificate - PEM formatted block")
 
